@@ -25,7 +25,9 @@ func isBytesOrString(t types.Type) bool {
 // inputParams: the parameters through which a caller hands the library read-only input:
 // the first []byte/string parameter of every exported function or method, and every []byte parameter of the
 // handler-interface methods (HandleArrayValue / HandleObjectValue implementations).
-func inputParams(funcs []*ssa.Function, exported func(fn *ssa.Function) bool) map[ssa.Value]bool {
+// bytesOnly: only []byte inputs count (for aliasing: a string is immutable, sharing one with the caller is harmless and
+// invisible; writing through one needs unsafe, which R16e forbids).
+func inputParams(funcs []*ssa.Function, exported func(fn *ssa.Function) bool, bytesOnly ...bool) map[ssa.Value]bool {
 	out := map[ssa.Value]bool{}
 	for _, fn := range funcs {
 		if fn.Parent() != nil {
@@ -48,6 +50,9 @@ func inputParams(funcs []*ssa.Function, exported func(fn *ssa.Function) bool) ma
 		}
 		for _, p := range params {
 			if isBytesOrString(p.Type()) {
+				if len(bytesOnly) > 0 && bytesOnly[0] && !isByteSliceT(p.Type()) {
+					break
+				}
 				out[p] = true
 				break
 			}
@@ -138,7 +143,7 @@ func (x *Ctx) inputWriteRule(r *core.Result, rs *core.RuleStat) (keeps []sinkHit
 	w := x.W
 	funcs := w.SrcFuncs()
 	roots := x.apiRootSet()
-	src := inputParams(funcs, func(fn *ssa.Function) bool { return roots[fn] })
+	src := inputParams(funcs, func(fn *ssa.Function) bool { return roots[fn] }, true)
 	writes, keeps, tainted := inputAliasSinks(funcs, w.CG(), src, roots)
 	for _, h := range writes {
 		r.Fail(rs, h.Key, w.Pos(h.Pos), h.Msg)
@@ -224,6 +229,14 @@ func (x *Ctx) stringResultsCopied(r *core.Result, rs *core.RuleStat) {
 		switch t := v.(type) {
 		case *ssa.Const:
 			return ""
+		case *ssa.Parameter:
+			if isStringType(t.Type()) {
+				return "" // the caller's own string handed back: immutable, it cannot change later
+			}
+		case *ssa.Slice:
+			if isStringType(t.Type()) {
+				return isCopy(t.X, seen) // a substring of an owned or constant string
+			}
 		case *ssa.Convert:
 			if isStringType(t.Type()) {
 				switch u := t.X.Type().Underlying().(type) {
